@@ -866,8 +866,8 @@ R.mutant("finalize-reset-only-when-detached", POOL,
          sub(_RESET_CALL + "\n            if detach:\n",
              "            if detach:\n" + _RESET_CALL.replace("            ", "                ")), "C24-R1")
 R.mutant("finalize-no-invalidate-on-reset-error", POOL,
-         sub("            if connection_record:\n                connection_record.invalidate(e=e)\n            if not isinstance(e, Exception):\n                raise\n        finally:",
-             "            if not isinstance(e, Exception):\n                raise\n        finally:"), "C24-R1")
+         sub("            if connection_record:\n                connection_record.invalidate(e=e)\n            if not isinstance(e, Exception):\n",
+             "            if not isinstance(e, Exception):\n"), "C24-R1")
 R.mutant("finalize-invalidate-only-when-echo", POOL,
          sub("            if connection_record:\n                connection_record.invalidate(e=e)\n            if not isinstance(e, Exception):",
              "            if connection_record and echo:\n                connection_record.invalidate(e=e)\n            if not isinstance(e, Exception):"), "C24-R1")
@@ -889,12 +889,12 @@ R.mutant("characteristics-finaliser-only-in-transaction", DEF,
          sub("        connection.connection._connection_record.finalize_callback.append(\n            functools.partial(self._reset_characteristics, characteristics)\n        )\n",
              "        if connection.in_transaction():\n            connection.connection._connection_record.finalize_callback.append(\n                functools.partial(self._reset_characteristics, characteristics)\n            )\n"), "C24-R4")
 R.mutant("checkin-return-before-drain", POOL,
-         sub("        while self.finalize_callback:\n            finalizer = self.finalize_callback.pop()\n            if connection is not None:\n                finalizer(connection)\n        if pool.dispatch.checkin:\n            pool.dispatch.checkin(connection, self)\n\n        pool._return_conn(self)\n",
-             "        if pool.dispatch.checkin:\n            pool.dispatch.checkin(connection, self)\n\n        pool._return_conn(self)\n        while self.finalize_callback:\n            finalizer = self.finalize_callback.pop()\n            if connection is not None:\n                finalizer(connection)\n"), "C24-R4")
+         chain(sub("        try:\n            while self.finalize_callback:\n", "        pool._return_conn(self)\n        try:\n            while self.finalize_callback:\n"),
+               sub("            pool._return_conn(self)\n            raise\n\n        pool._return_conn(self)\n", "            raise\n")), "C24-R4")
 R.mutant("checkin-drain-if-not-while", POOL,
-         sub("        while self.finalize_callback:\n            finalizer = self.finalize_callback.pop()", "        if self.finalize_callback:\n            finalizer = self.finalize_callback.pop()"), "C24-R4")
+         sub("            while self.finalize_callback:\n                finalizer = self.finalize_callback.pop()", "            if self.finalize_callback:\n                finalizer = self.finalize_callback.pop()"), "C24-R4")
 R.mutant("checkin-finaliser-not-called", POOL,
-         sub("            if connection is not None:\n                finalizer(connection)\n", "            if connection is not None and pool._pre_ping:\n                finalizer(connection)\n"), "C24-R4")
+         sub("                if connection is not None:\n                    finalizer(connection)\n", "                if connection is not None and pool._pre_ping:\n                    finalizer(connection)\n"), "C24-R4")
 R.mutant("close-does-not-clear-finalisers", POOL,
          sub("        self.finalize_callback.clear()\n        if self.__pool.dispatch.close:", "        if self.__pool.dispatch.close:"), "C24-R4")
 R.mutant("characteristic-reset-removed", "dialects/postgresql/base.py",
@@ -908,8 +908,8 @@ R.mutant("benign-rename-skip-reset", ENG, sub("skip_reset", "trans_closed", coun
 R.mutant("benign-finalize-extra-logging", POOL,
          sub("            assert fairy.dbapi_connection is dbapi_connection\n", "            assert fairy.dbapi_connection is dbapi_connection\n            pool.logger.debug(\"resetting %r\", dbapi_connection)\n"), None)
 R.mutant("benign-checkin-rename-finalizer", POOL,
-         sub("            finalizer = self.finalize_callback.pop()\n            if connection is not None:\n                finalizer(connection)\n",
-             "            fn = self.finalize_callback.pop()\n            if connection is not None:\n                fn(connection)\n"), None)
+         sub("                finalizer = self.finalize_callback.pop()\n                if connection is not None:\n                    finalizer(connection)\n",
+             "                fn = self.finalize_callback.pop()\n                if connection is not None:\n                    fn(connection)\n"), None)
 R.mutant("benign-reset-reorder-echo", POOL,
          sub("            if self._echo:\n                pool.logger.debug(\n                    \"Connection %s commit-on-return\",\n                    self.dbapi_connection,\n                )\n            pool._dialect.do_commit(self)\n",
              "            pool._dialect.do_commit(self)\n            if self._echo:\n                pool.logger.debug(\n                    \"Connection %s commit-on-return\",\n                    self.dbapi_connection,\n                )\n"), None)
@@ -1115,10 +1115,15 @@ R.mutant("rob-finalize-reset-failure-helper-only-logs", POOL,
 R.mutant("benign-rob-finalize-live-flag", POOL,
          sub("    if dbapi_connection is not None:\n        if connection_record and echo:\n",
              "    live = dbapi_connection is not None\n    if live:\n        if connection_record and echo:\n"), None)
-_DRAIN = ("        while self.finalize_callback:\n            finalizer = self.finalize_callback.pop()\n"
-          "            if connection is not None:\n                finalizer(connection)\n")
+# (since the fix b091da1 the drain loop and the checkin event sit inside `try: ... except BaseException as err:` -- 12 columns)
+_DRAIN = ("            while self.finalize_callback:\n                finalizer = self.finalize_callback.pop()\n"
+          "                if connection is not None:\n                    finalizer(connection)\n")
+_CHECKIN_FIXED = ("        try:\n" + _DRAIN + "            if pool.dispatch.checkin:\n                pool.dispatch.checkin(connection, self)\n"
+                  "        except BaseException as err:\n            # the connection may not be completely reset: don't pool it,\n"
+                  "            # but give the pool its slot back\n            self.finalize_callback.clear()\n            self.invalidate(e=err)\n"
+                  "            pool._return_conn(self)\n            raise\n\n        pool._return_conn(self)\n")
 R.mutant("benign-rob-checkin-drain-helper", POOL,
-         chain(sub(_DRAIN + "        if pool.dispatch.checkin:\n", "        self._run_finalizers(connection)\n        if pool.dispatch.checkin:\n"),
+         chain(sub(_DRAIN + "            if pool.dispatch.checkin:\n", "            self._run_finalizers(connection)\n            if pool.dispatch.checkin:\n"),
                sub("    def checkin(self, _fairy_was_created: bool = True) -> None:\n",
                    "    def _run_finalizers(self, dbapi_conn: Optional[DBAPIConnection]) -> None:\n"
                    "        callbacks = self.finalize_callback\n        while callbacks:\n            fn = callbacks.pop()\n"
@@ -1138,19 +1143,18 @@ R.mutant("benign-rob-characteristics-values-built-by-loop", DEF,
 
 # ---------------------------------------------------------------------- str2-k: round-2 seeds C24_3 (checkin swallows a
 # failing finaliser) and C24_4 (reset_isolation_level forgets the engine-wide level)
-_INVOKE = "            if connection is not None:\n                finalizer(connection)\n"
+_INVOKE = "                if connection is not None:\n                    finalizer(connection)\n"
 R.mutant("checkin-seed3-failing-finaliser-swallowed", POOL,
          sub(_INVOKE,
-             "            if connection is not None:\n                try:\n                    finalizer(connection)\n"
-             "                except Exception:\n                    pool.logger.error(\n"
-             "                        \"Exception during connection finalizer\", exc_info=True\n                    )\n"), "C24-R4")
+             "                if connection is not None:\n                    try:\n                        finalizer(connection)\n"
+             "                    except Exception:\n                        pool.logger.error(\n"
+             "                            \"Exception during connection finalizer\", exc_info=True\n                        )\n"), "C24-R4")
 R.mutant("checkin-return-conn-in-finally-of-drain", POOL,
-         sub(_DRAIN + "        if pool.dispatch.checkin:\n            pool.dispatch.checkin(connection, self)\n\n        pool._return_conn(self)\n",
-             "        try:\n" + _DRAIN.replace("\n        ", "\n            ").replace("        while", "            while", 1)
-             + "            if pool.dispatch.checkin:\n                pool.dispatch.checkin(connection, self)\n"
-               "        finally:\n            pool._return_conn(self)\n"), "C24-R4")
+         sub(_CHECKIN_FIXED,
+             "        try:\n" + _DRAIN + "            if pool.dispatch.checkin:\n                pool.dispatch.checkin(connection, self)\n"
+             "        finally:\n            pool._return_conn(self)\n"), "C24-R4")
 R.mutant("rob-checkin-drain-helper-suppresses-finaliser-errors", POOL,
-         chain(sub(_DRAIN + "        if pool.dispatch.checkin:\n", "        self._run_finalizers(connection)\n        if pool.dispatch.checkin:\n"),
+         chain(sub(_DRAIN + "            if pool.dispatch.checkin:\n", "            self._run_finalizers(connection)\n            if pool.dispatch.checkin:\n"),
                sub("    def checkin(self, _fairy_was_created: bool = True) -> None:\n",
                    "    def _run_finalizers(self, dbapi_conn: Optional[DBAPIConnection]) -> None:\n"
                    "        callbacks = self.finalize_callback\n        while callbacks:\n            fn = callbacks.pop()\n"
@@ -1159,20 +1163,20 @@ R.mutant("rob-checkin-drain-helper-suppresses-finaliser-errors", POOL,
                    "    def checkin(self, _fairy_was_created: bool = True) -> None:\n")), "C24-R4")
 R.mutant("benign-checkin-failing-finaliser-invalidates-record", POOL,
          sub(_INVOKE,
-             "            if connection is not None:\n                try:\n                    finalizer(connection)\n"
-             "                except BaseException as err:\n                    pool.logger.error(\n"
-             "                        \"Exception during connection finalizer\", exc_info=True\n                    )\n"
-             "                    self.invalidate(e=err)\n"), None)
+             "                if connection is not None:\n                    try:\n                        finalizer(connection)\n"
+             "                    except BaseException as err:\n                        pool.logger.error(\n"
+             "                            \"Exception during connection finalizer\", exc_info=True\n                        )\n"
+             "                        self.invalidate(e=err)\n"), None)
 R.mutant("benign-checkin-failing-finaliser-logged-and-reraised", POOL,
          sub(_INVOKE,
-             "            if connection is not None:\n                try:\n                    finalizer(connection)\n"
-             "                except Exception:\n                    pool.logger.error(\n"
-             "                        \"Exception during connection finalizer\", exc_info=True\n                    )\n"
-             "                    raise\n"), None)
+             "                if connection is not None:\n                    try:\n                        finalizer(connection)\n"
+             "                    except Exception:\n                        pool.logger.error(\n"
+             "                            \"Exception during connection finalizer\", exc_info=True\n                        )\n"
+             "                        raise\n"), None)
 R.mutant("benign-checkin-failing-finaliser-closes-record-in-helper", POOL,
          chain(sub(_INVOKE,
-                   "            if connection is not None:\n                try:\n                    finalizer(connection)\n"
-                   "                except Exception as err:\n                    self._finalizer_failed(err)\n"),
+                   "                if connection is not None:\n                    try:\n                        finalizer(connection)\n"
+                   "                    except Exception as err:\n                        self._finalizer_failed(err)\n"),
                sub("    def checkin(self, _fairy_was_created: bool = True) -> None:\n",
                    "    def _finalizer_failed(self, err: BaseException) -> None:\n"
                    "        self.__pool.logger.error(\"finalizer failed\", exc_info=True)\n        self.invalidate(e=err)\n\n"
@@ -1258,14 +1262,11 @@ R.mutant("benign-onconnect-hook-level-through-local", DEF,
              "                self._assert_and_set_isolation_level(\n                    dbapi_conn, self._on_connect_isolation_level\n                )\n",
              "        level = self._on_connect_isolation_level\n        if level is not None:\n\n            def builtin_connect(dbapi_conn, conn_rec):\n"
              "                self._assert_and_set_isolation_level(dbapi_conn, level)\n"), None)
-# the fix proposed for the pool-slot leak on the unchanged tree (findings/C24_failing_finaliser_leaks_pool_slot.py)
-R.mutant("benign-checkin-failing-finaliser-invalidated-returned-reraised", POOL,
-         sub(_DRAIN,
-             "        try:\n" + _DRAIN.replace("\n        ", "\n            ").replace("        while", "            while", 1)
-             + "        except BaseException as err:\n            self.finalize_callback.clear()\n            self.invalidate(e=err)\n"
-               "            pool._return_conn(self)\n            raise\n"), None)
+# the pool-slot leak of the original tree (findings/C24_failing_finaliser_leaks_pool_slot.py) is fixed in /repo (b091da1): the handler
+# clears, invalidates, returns the record and re-raises.  Same handler with the two discard steps swapped: same behaviour
+R.mutant("benign-checkin-failing-finaliser-invalidated-cleared-returned-reraised", POOL,
+         sub("            self.finalize_callback.clear()\n            self.invalidate(e=err)\n            pool._return_conn(self)\n",
+             "            self.invalidate(e=err)\n            self.finalize_callback.clear()\n            pool._return_conn(self)\n"), None)
 R.mutant("checkin-failing-finaliser-returned-without-invalidation", POOL,
-         sub(_DRAIN,
-             "        try:\n" + _DRAIN.replace("\n        ", "\n            ").replace("        while", "            while", 1)
-             + "        except BaseException:\n            self.finalize_callback.clear()\n"
-               "            pool._return_conn(self)\n            raise\n"), "C24-R4")
+         sub("            self.finalize_callback.clear()\n            self.invalidate(e=err)\n            pool._return_conn(self)\n",
+             "            self.finalize_callback.clear()\n            pool._return_conn(self)\n"), "C24-R4")
